@@ -140,8 +140,16 @@ static void composite_case (vf_rng *r)
         while (rp_is_wide (q.dst.fmt) || !rp_is_direct (q.dst.fmt)) q.dst.fmt = rq_dst_formats[vf_next (r) % rq_n_dst_formats];
         q.dst.alpha_map = 0;
     }
+    /* a solid colour through an a8 mask made of runs of 0xff onto a 24-bpp destination: the routines for this pairing store several pixels at a
+     * time where the mask is fully opaque, right up to the edge of the region */
+    int runs24 = !marking && vf_chance (r, 1, 12);
+    if (runs24) { q.op = vf_chance (r, 3, 4) ? PIXMAN_OP_OVER : PIXMAN_OP_SRC; memset (&q.src, 0, sizeof q.src); q.src.kind = RQ_SOLID; q.src.solid.alpha = vf_chance (r, 3, 4) ? 0xffff : (uint16_t)vf_next (r); q.src.solid.red = (uint16_t)(vf_next (r) % (q.src.solid.alpha + 1u)); q.src.solid.green = q.src.solid.red / 3; q.src.solid.blue = (uint16_t)(vf_next (r) % (q.src.solid.alpha + 1u));
+        q.dst.fmt = vf_chance (r, 1, 2) ? PIXMAN_r8g8b8 : PIXMAN_b8g8r8; q.dst.alpha_map = 0; q.dst.accessors = 0;
+        q.has_mask = 1; memset (&q.mask, 0, sizeof q.mask); q.mask.kind = RQ_BITS; q.mask.fmt = PIXMAN_a8; q.mask.w = q.dst.w + 8; q.mask.h = q.dst.h + 2; q.mask.filter = PIXMAN_FILTER_NEAREST; pixman_transform_init_identity (&q.mask.tr); q.mask.pixseed = vf_next (r);
+        q.mx = (int)vf_range (r, 0, 4); q.my = (int)vf_range (r, 0, 1); vf_count ("solid_through_a8_runs_onto_24bpp", 1); }
     if (q.dst.w > GW || q.dst.h > GH) return;
     if (!rq_build (&q, r)) return;
+    if (runs24) { for (int y = 0; y < q.mask.h; y++) { uint8_t *row = vf_buf_row (&q.mask.buf, y); int x = 0; while (x < q.mask.w) { int len = (int)vf_range (r, 2, 14), full = vf_chance (r, 2, 3); for (int i = 0; i < len && x < q.mask.w; i++, x++) row[x] = full ? 0xff : (uint8_t)vf_next (r); } } }
     /* the destination's alpha map attached a second time at another origin (same map object): the bounds that count are the new ones */
     if (q.dst.amap && q.dst.alpha_map && vf_chance (r, 1, 2)) { q.dst.am_x = (int)vf_range (r, -4, 5); q.dst.am_y = (int)vf_range (r, -3, 4);
         pixman_image_set_alpha_map (q.dst.img, q.dst.amap, (int16_t)q.dst.am_x, (int16_t)q.dst.am_y); vf_count ("destination_alpha_map_moved", 1); }
